@@ -184,6 +184,41 @@ fn sample_value(rng: &mut Rng) -> Sample {
 }
 
 /// a valid encoding for the subject (the seed of mutations)
+/// the smallest well-formed unit of a subject's format (an empty compressed member, an empty batch, a tiny frame)
+fn small_unit(subject: usize, rng: &mut Rng) -> Vec<u8> {
+    match subject {
+        9..=14 => {
+            let name = match subject {
+                9 => "gzip/6",
+                10 => "zlib/6",
+                11 | 14 => "zstd/3",
+                12 => "lz4",
+                _ => "brotli-generic/5",
+            };
+            let data: Vec<u8> = if rng.pct(70) { vec![] } else { vec![b'x'; rng.below(3) as usize + 1] };
+            PAIRS.with(|p| {
+                if p.borrow().is_none() {
+                    *p.borrow_mut() = Some(all_pairs(true));
+                }
+                let g = p.borrow();
+                let pr = g.as_ref().unwrap().iter().find(|x| x.2 == name).unwrap();
+                pr.0.compress(Bytes::from(data)).map(|b| b.to_vec()).unwrap_or_default()
+            })
+        }
+        2 | 15 => encode_message_batch(vec![]).to_vec(),
+        0 => {
+            let mut buf = BytesMut::new();
+            let _ = MessageCodec.encode(Frame::Ok, &mut buf);
+            buf.to_vec()
+        }
+        _ => {
+            let mut v = valid_seed(subject, rng);
+            v.truncate(24);
+            v
+        }
+    }
+}
+
 fn valid_seed(subject: usize, rng: &mut Rng) -> Vec<u8> {
     match subject {
         0 => {
@@ -273,7 +308,7 @@ const SPECIAL_U64: &[u64] = &[0, 1, 2, 7, 8, 9, 255, 256, 65535, 65536, 1 << 20,
 pub fn gen_input(seed: u64, idx: u64) -> (usize, Vec<u8>, &'static str) {
     let mut rng = Rng::new(crate::common::mix(seed, idx));
     let subject = (idx % SUBJECTS.len() as u64) as usize;
-    let strategy = rng.below(12);
+    let strategy = rng.below(13);
     match strategy {
         0 => {
             let n = match rng.below(4) {
@@ -391,6 +426,18 @@ pub fn gen_input(seed: u64, idx: u64) -> (usize, Vec<u8>, &'static str) {
             }
             (subject, v, "systematic-field-poisoning")
         }
+        12 => {
+            // long runs of the smallest well-formed unit (thousands of empty gzip members, empty batches, Ok frames …):
+            // a decoder that handles "one more unit" by recursion runs out of stack
+            let unit = small_unit(subject, &mut rng);
+            let max_k = if unit.is_empty() { 1 } else { (1_040_000 / unit.len()).max(1) };
+            let k = if rng.below(64) == 0 { *rng.pick(&[max_k, max_k / 2, 20_000.min(max_k), 6_000.min(max_k)]) } else { *rng.pick(&[2usize, 3, 16, 64]) };
+            let mut v = Vec::with_capacity(unit.len() * k);
+            for _ in 0..k {
+                v.extend_from_slice(&unit);
+            }
+            (subject, v, "run-of-small-units")
+        }
         11 => {
             // format-aware adversarial headers for the decompressors
             let val = *rng.pick(SPECIAL_U64);
@@ -459,7 +506,14 @@ pub fn budget(subject: usize, input_len: usize, output_len: usize) -> usize {
 // ---------------------------------------------------------------------------------------
 // child
 // ---------------------------------------------------------------------------------------
+/// the decoders run on a thread with the stack a tokio worker has (2 MiB), not on the 8 MiB main thread
 pub fn child_main(seed: u64, from: u64, to: u64, progress_path: &str, out_path: &str, track: bool) {
+    let (p, o) = (progress_path.to_string(), out_path.to_string());
+    let h = std::thread::Builder::new().name("decoders".into()).stack_size(2 << 20).spawn(move || child_body(seed, from, to, &p, &o, track)).expect("spawn");
+    let _ = h.join();
+}
+
+fn child_body(seed: u64, from: u64, to: u64, progress_path: &str, out_path: &str, track: bool) {
     std::panic::set_hook(Box::new(|info| {
         let loc = info.location().map(|l| format!("{}:{}", l.file(), l.line())).unwrap_or_default();
         let msg = info.payload().downcast_ref::<&str>().map(|s| s.to_string()).or(info.payload().downcast_ref::<String>().cloned()).unwrap_or_default();
